@@ -135,6 +135,149 @@ def jobs_runs(evs, world=None):
     return [runs[d] for d in order]
 
 
+LOG_LOCK_MAGIC = 0x10000000
+
+
+def process_tree(evs):
+    job_parent, ppid, jobinfo, unlocked, exited = {}, {}, {}, set(), set()
+    last_start = {}
+    for ev in evs:
+        n = ev['ev']
+        if n == 'JobStart':
+            job_parent[ev['child']] = ev['pid']
+            if ev['pid'] in last_start:
+                jobinfo[ev['child']] = last_start.pop(ev['pid'])
+        elif n == 'StartSelf':
+            last_start[ev['pid']] = (ev['t'], ev['fid'])
+        elif n == 'ProcStart':
+            ppid[ev['pid']] = ev['ppid']
+            if ev.get('unlocked') == '1':
+                unlocked.add(ev['pid'])
+        elif n == 'Exit':
+            exited.add(ev['pid'])
+    return job_parent, ppid, jobinfo, unlocked, exited
+
+
+def ancestors(pid, job_parent, ppid):
+    """redo processes above pid (through scripts / redo-unlocked)"""
+    out = []
+    cur = pid
+    for _ in range(64):
+        pp = ppid.get(cur)
+        if pp is None:
+            break
+        # pp is a script / redo-unlocked pid (a job) or an unknown process
+        hops = 0
+        while pp not in job_parent and pp in ppid and hops < 8:
+            pp = ppid[pp]
+            hops += 1
+        if pp not in job_parent:
+            break
+        cur = job_parent[pp]
+        out.append(cur)
+    return out
+
+
+def locks_run(evs):
+    """projection onto TraceLocks events (one run)"""
+    job_parent, ppid, jobinfo, unlocked, exited = process_tree(evs)
+    pids = set(ev['pid'] for ev in evs if 'seq' in ev)
+    gone = sorted(p for p in pids if p not in exited)
+    out = [{'ev': 'Reset', 'pid': 0, 'gone': gone}]
+    anc_cache = {}
+
+    def ctx(pid):
+        if pid not in anc_cache:
+            anc_cache[pid] = ancestors(pid, job_parent, ppid)
+        return {'unl': pid in unlocked, 'anc': anc_cache[pid] if pid in unlocked else []}
+
+    for ev in evs:
+        n = ev['ev']
+        pid = ev['pid']
+        fid = ev.get('fid')
+        if n in ('LockTry', 'LockAcq', 'LockRel') and (fid is None or fid == 0 or fid >= LOG_LOCK_MAGIC):
+            continue
+        if n == 'LockTry':
+            if ev['ok']:
+                out.append({'ev': 'Take', 'pid': pid, 'fid': fid})
+        elif n == 'LockAcq':
+            if not ev.get('shared'):
+                out.append({'ev': 'Take', 'pid': pid, 'fid': fid})
+        elif n == 'LockRel':
+            out.append({'ev': 'Rel', 'pid': pid, 'fid': fid})
+        elif n == 'Verdict':
+            out.append(dict({'ev': 'Verdict', 'pid': pid, 'fid': fid}, **ctx(pid)))
+        elif n == 'StartSelf':
+            out.append(dict({'ev': 'Start', 'pid': pid, 'fid': fid}, **ctx(pid)))
+        elif n == 'RecDone':
+            out.append(dict({'ev': 'Rec', 'pid': pid, 'fid': fid}, **ctx(pid)))
+        elif n == 'Commit':
+            out.append({'ev': 'Commit', 'pid': pid})
+        elif n == 'Exit':
+            out.append({'ev': 'Exit', 'pid': pid})
+        elif n in ('ScriptStart', 'ScriptEnd'):
+            if pid not in jobinfo or pid not in job_parent:
+                continue
+            par = job_parent[pid]
+            rec = {'ev': 'SBegin' if n == 'ScriptStart' else 'SEnd', 'pid': pid, 'fid': jobinfo[pid][1], 'par': par,
+                   't': ev.get('t', '')}
+            rec.update(ctx(par))
+            out.append(rec)
+    return out
+
+
+def _nn(x, dflt):
+    return dflt if x is None else x
+
+
+def db_run(evs, census=None):
+    """projection onto TraceDb events (one run); census = (rows, edges) read from the database afterwards"""
+    job_parent, ppid, jobinfo, unlocked, exited = process_tree(evs)
+    pids = set(ev['pid'] for ev in evs if 'seq' in ev)
+    gone = sorted(p for p in pids if p not in exited)
+    out = [{'ev': 'Reset', 'pid': 0, 'gone': gone}]
+    for ev in evs:
+        n = ev['ev']
+        pid = ev['pid']
+        if n == 'TxBegin':
+            out.append({'ev': 'TxBegin', 'pid': pid, 'mode': 'imm' if 'IMMEDIATE' in ev['mode'] or 'EXCLUSIVE' in ev['mode'] else 'def'})
+        elif n == 'RowSave':
+            out.append({'ev': 'RowSave', 'pid': pid, 'id': ev['id'], 'gen': bool(ev['gen']), 'ovr': bool(ev['ovr']),
+                        'checked': _nn(ev['checked'], -1), 'changed': _nn(ev['changed'], -1),
+                        'failed': _nn(ev['failed'], -1), 'stamp': _nn(ev['stamp'], ''), 'csum': _nn(ev['csum'], '')})
+        elif n == 'DepAdd':
+            out.append({'ev': 'DepAdd', 'pid': pid, 'id': ev['id'], 'srcid': ev['srcid'], 'mode': ev['mode']})
+        elif n in ('Zap1', 'Zap2'):
+            out.append({'ev': n, 'pid': pid, 'id': ev['id']})
+        elif n in ('Commit', 'Rollback', 'Exit'):
+            out.append({'ev': n, 'pid': pid})
+        elif n == 'RunStart':
+            out.append({'ev': 'RunStart', 'pid': pid, 'runid': ev['runid'] - 1000000000 if ev['runid'] else 0,
+                        'toplevel': bool(ev['toplevel'])})
+    if census is not None:
+        rows, edges = census
+        out.append({'ev': 'Census', 'pid': 0, 'rows': rows, 'edges': edges})
+    return out
+
+
+def read_census(dbpath):
+    """rows and edges of a quiescent database, in the shape of db_run()'s events"""
+    import sqlite3
+    con = sqlite3.connect('file:%s?mode=ro' % dbpath, uri=True, timeout=30)
+    try:
+        rows = []
+        for r in con.execute('select rowid, is_generated, is_override, checked_runid, changed_runid, failed_runid, '
+                             'stamp, csum from Files'):
+            rows.append({'id': r[0], 'gen': bool(r[1]), 'ovr': bool(r[2]), 'checked': _nn(r[3], -1),
+                         'changed': _nn(r[4], -1), 'failed': _nn(r[5], -1), 'stamp': _nn(r[6], ''), 'csum': _nn(r[7], '')})
+        edges = [{'t': r[0], 's': r[1], 'm': r[2], 'd': bool(r[3])}
+                 for r in con.execute('select target, source, mode, delete_me from Deps')]
+        integrity = con.execute('pragma integrity_check').fetchone()[0]
+    finally:
+        con.close()
+    return rows, edges, integrity
+
+
 def write_ndjson(records, path):
     with open(path, 'w') as f:
         for r in records:
